@@ -12,8 +12,11 @@ structure St where
   mg : PathMap.PMap := []
   mp : PathMap.PMap := []
   views : List (List (List Byte)) := []
+  ng : List PathMap.Key := []   -- spec: the elements that exist (with or without value)
+  np : List PathMap.Key := []
   xi : List Item := []          -- C++ part: item array of the private configuration
   mx : PathMap.PMap := []
+  ex : List PathMap.Key := []   -- spec, C++ part: every element an accepted assignment ever created
   xlive : Bool := false
   deriving Inhabited
 
@@ -23,7 +26,14 @@ def fmtPairs (ps : List (List (List Byte) × List Byte)) : String :=
   let strs := ps.map fun e => fmtKey e.1 ++ "=" ++ toHex e.2
   ",".intercalate (strs.mergeSort (fun a b => a ≤ b))
 
-def fmtC (g p : List (List (List Byte) × List Byte)) : String := s!"G[{fmtPairs g}]P[{fmtPairs p}]"
+/-- every element: `path` or `path=value` -/
+def fmtNodes (ns : List (List (List Byte) × Option (List Byte))) : String :=
+  let strs := ns.map fun e => match e.2 with
+    | some v => fmtKey e.1 ++ "=" ++ toHex v
+    | none => fmtKey e.1
+  ",".intercalate (strs.mergeSort (fun a b => a ≤ b))
+
+def fmtC (g p : List (List (List Byte) × Option (List Byte))) : String := s!"G[{fmtNodes g}]P[{fmtNodes p}]"
 
 def dumpTree : Nat → List CNode → String
   | 0, _ => "?"
@@ -42,9 +52,10 @@ def resName {α} : Res α → String
 
 def line (s : St) (r ret : String) (alts : List (String × String)) : String :=
   let sAlts := " || ".intercalate (alts.map fun a => a.1 ++ " ; " ++ a.2)
-  s!"R {r} | C {fmtC (pairs s.g) (pairs s.p)} | I ret={ret} tree={dumpTree 1000 s.g}|{dumpTree 1000 s.p} | S {sAlts}"
+  s!"R {r} | C {fmtC (allNodes s.g) (allNodes s.p)} | I ret={ret} tree={dumpTree 1000 s.g}|{dumpTree 1000 s.p} | S {sAlts}"
 
-def specC (s : St) : String := fmtC s.mg s.mp
+def specC (s : St) : String :=
+  fmtC (s.ng.map fun k => (k, PathMap.get s.mg k)) (s.np.map fun k => (k, PathMap.get s.mp k))
 
 def xline (s : St) (r ret : String) (alts : List (String × String)) : String :=
   let sAlts := " || ".intercalate (alts.map fun a => a.1 ++ " ; " ++ a.2)
@@ -81,6 +92,48 @@ def pathElems (sep assign : Byte) (text : List Byte) : Res (List (List Byte)) :=
 def fmtElems (es : List (List Byte)) : String :=
   if es.isEmpty then "none" else ",".intercalate (es.map toHex)
 
+/-- an assignment through any of the trees: accepted (text value, every element fits an identifier) or refused;
+    a refused assignment changes nothing -/
+def doSet (s : St) (tr : TreeSel) (pth : List Byte) (sp : Byte) (v : AVal) : St × String :=
+  let key := PathMap.splitPath sp 0 pth
+  match pathElems sp 0 pth with
+  | .ok es =>
+    let accept := (match v with | .text _ => true | .noText => false) && PathMap.keyFits key
+    let val := match v with | .text t => t | .noText => []
+    match tr with
+    | .priv =>
+      let sp' := if accept then { s with mp := PathMap.set s.mp key val, np := PathMap.addNodes s.np key } else s
+      let want := if accept then "ok" else "refused"
+      let r := nodeAssignE s.p es v
+      let s' := { sp' with p := r.1 }
+      (s', line s' (if r.2 then "ok" else "refused") "node" [(want, specC sp')])
+    | .glob =>
+      let sp' := if accept then { s with mg := PathMap.set s.mg key val, ng := PathMap.addNodes s.ng key } else s
+      let want := if accept then "ok" else "refused"
+      let r := configAssignE s.g [] es v
+      let s' := { sp' with g := r.1 }
+      (s', line s' (match r.2 with | .ok _ => "ok" | _ => "refused") (match r.2 with | .ok _ => "0" | x => resName x) [(want, specC sp')])
+    | .view b =>
+      let accept := accept && PathMap.keyFits b
+      let sp' := if accept then { s with mg := PathMap.set s.mg (b ++ key) val, ng := PathMap.addNodes s.ng (b ++ key) } else s
+      let want := if accept then "ok" else "refused"
+      let r := configAssignE s.g b es v
+      let s' := { sp' with g := r.1 }
+      (s', line s' (match r.2 with | .ok _ => "ok" | _ => "refused") (match r.2 with | .ok _ => "0" | x => resName x) [(want, specC sp')])
+  | x => (s, line s (resName x) "-" [("ok", "*")])
+
+/-- `config::root::assign` of a text value: refused (and nothing changed) when an element does not fit an identifier -/
+def xSet (s : St) (pth : List Byte) (sp : Byte) (val : List Byte) : St × String :=
+  let key := PathMap.splitPath sp 0 pth
+  match pathElems sp 0 pth with
+  | .ok es =>
+    let accept := PathMap.keyFits key
+    let sp' := if accept then { s with mx := PathMap.set s.mx key val, ex := PathMap.addNodes s.ex key } else s
+    let r := itemAssignE s.xi es val
+    let s' := { sp' with xi := r.1 }
+    (s', xline s' (if r.2 then "ok" else "refused") (if r.2 then "0" else "false") [(if accept then "ok" else "refused", xspecC sp')])
+  | x => (s, xline s (resName x) "-" [("ok", "*")])
+
 def step (s : St) (w : List String) : St × String :=
   match w with
   | ["g", "begin"] =>
@@ -88,34 +141,34 @@ def step (s : St) (w : List String) : St × String :=
     (s', line s' "ok" "0" [("ok", specC s')])
   | ["g", "set", tr, pth, sp, val] =>
     match parseTree s tr, parseText pth, parseChar sp, parseText val with
-    | some tr, some pth, some sp, some val =>
+    | some tr, some pth, some sp, some val => doSet s tr pth sp (.text val)
+    | _, _, _, _ => (s, "bad-op")
+  | ["g", "seti", tr, pth, sp] =>
+    -- a value without text form (int32): `mpt_meta_new` has no representation for it
+    match parseTree s tr, parseText pth, parseChar sp with
+    | some tr, some pth, some sp => doSet s tr pth sp .noText
+    | _, _, _ => (s, "bad-op")
+  | ["g", "setl", tr, pre, n, suf, sp, val] =>
+    -- path text = prefix, n times 'x', suffix (elements around the 65535 byte limit of an identifier)
+    match parseTree s tr, parseText pre, n.toNat?, parseText suf, parseChar sp, parseText val with
+    | some tr, some pre, some n, some suf, some sp, some val =>
+      if n < 65535 ∨ n > 70000 ∨ sp = 120 then (s, "bad-op") else
+      doSet s tr (pre ++ List.replicate n 120 ++ suf) sp (.text val)
+    | _, _, _, _, _, _ => (s, "bad-op")
+  | ["g", "has", tr, pth, sp] =>
+    match parseTree s tr, parseText pth, parseChar sp with
+    | some tr, some pth, some sp =>
       let key := PathMap.splitPath sp 0 pth
       match pathElems sp 0 pth with
       | .ok es =>
-        match tr with
-        | .priv =>
-          let sp' := { s with mp := PathMap.set s.mp key val }
-          match nodeAssign s.p es val with
-          | some p' =>
-            let s' := { sp' with p := p' }
-            (s', line s' "ok" "node" [("ok", specC s')])
-          | none => (s, line s "refused" "node" [("ok", specC sp')])
-        | .glob =>
-          let sp' := { s with mg := PathMap.set s.mg key val }
-          match configAssign s.g [] es val with
-          | .ok g' =>
-            let s' := { sp' with g := g' }
-            (s', line s' "ok" "0" [("ok", specC s')])
-          | x => (s, line s "refused" (resName x) [("ok", specC sp')])
-        | .view b =>
-          let sp' := { s with mg := PathMap.set s.mg (b ++ key) val }
-          match configAssign s.g b es val with
-          | .ok g' =>
-            let s' := { sp' with g := g' }
-            (s', line s' "ok" "0" [("ok", specC s')])
-          | x => (s, line s "refused" (resName x) [("ok", specC sp')])
-      | x => (s, line s (resName x) "-" [("ok", "*")])
-    | _, _, _, _ => (s, "bad-op")
+        let (found, specHas) := match tr with
+          | .priv => ((findExact s.p es).isSome, s.np.contains key)
+          | .glob => ((findExact s.g es).isSome, s.ng.contains key)
+          | .view b => ((findExact s.g (b ++ es)).isSome, s.ng.contains (b ++ key))
+        let w := fun (x : Bool) => if x then "present" else "absent"
+        (s, line s (w found) "-" [(w specHas, specC s)])
+      | x => (s, line s (resName x) "-" [("*", "*")])
+    | _, _, _ => (s, "bad-op")
   | ["g", "del", tr, pth, sp] =>
     match parseTree s tr, parseText pth, parseChar sp with
     | some tr, some pth, some sp =>
@@ -125,9 +178,10 @@ def step (s : St) (w : List String) : St × String :=
       | .ok es, tr =>
         let b := match tr with | .view b => b | _ => []
         let m' := PathMap.removePrefix s.mg (b ++ key)
-        let sp' := { s with mg := m' }
+        let n' := PathMap.removeNodes s.ng (b ++ key)
+        let sp' := { s with mg := m', ng := n' }
         -- refusing is an acceptable answer when there is nothing to remove
-        let alts := [("ok", specC sp')] ++ (if m'.length = s.mg.length then [("refused", specC s)] else [])
+        let alts := [("ok", specC sp')] ++ (if n'.length = s.ng.length then [("refused", specC s)] else [])
         match configRemove s.g b es with
         | .ok (g', ret) =>
           let s' := { sp' with g := g' }
@@ -158,14 +212,14 @@ def step (s : St) (w : List String) : St × String :=
       if es.any (fun e => e.isEmpty || e.length > 255) then (s, "bad-op") else
       match tr with
       | .priv =>
-        let sp' := { s with mp := PathMap.set s.mp es val }
+        let sp' := { s with mp := PathMap.set s.mp es val, np := PathMap.addNodes s.np es }
         match nodeAssign s.p es val with
         | some p' =>
           let s' := { sp' with p := p' }
           (s', line s' "ok" "node" [("ok", specC s')])
         | none => (s, line s "refused" "node" [("ok", specC sp')])
       | .glob =>
-        let sp' := { s with mg := PathMap.set s.mg es val }
+        let sp' := { s with mg := PathMap.set s.mg es val, ng := PathMap.addNodes s.ng es }
         match configAssign s.g [] es val with
         | .ok g' =>
           let s' := { sp' with g := g' }
@@ -240,6 +294,41 @@ def step (s : St) (w : List String) : St × String :=
           (s, line s s!"last={fmtElems [e]} next={nx}" s!"{n} off={q.off} len={q.len} first={q.first}" [(specR, specC s)])
         | x => (s, line s "refused" (resName x) [(specR, specC s)])
     | _, _, _ => (s, "bad-op")
+  | ["g", "rebuild", mode, sp, els, skip, e2] =>
+    if mode ≠ "s" ∧ mode ≠ "b" then (s, "bad-op") else
+    match parseChar sp, (els.splitOn ",").mapM parseText, skip.toNat?, parseText e2 with
+    | some sp, some es, some skip, some e2 =>
+      if skip > 8 then (s, "bad-op") else
+      let bin := mode = "b"
+      let fits := fun (e : List Byte) => if bin then e.length ≤ 255 else !e.contains sp
+      let valid := es.all fits && fits e2 && (es.head?.map (·.length)) != some 0
+      -- build, `skip` times next on the same path
+      let built : Option Path := es.foldl (fun (acc : Option Path) e =>
+        match acc with
+        | none => none
+        | some p => match pushElem p e with | .ok q => some q | _ => none) (some (emptyPath sp 0 bin))
+      let skipped : Option Path := (List.range skip).foldl (fun (acc : Option Path) _ =>
+        match acc with
+        | none => none
+        | some p => if p.len = 0 then none else match pathNext p with | .ok (q, _) => some q | _ => none) built
+      match skipped with
+      | none => (s, line s "unbuilt" "-" [(if valid ∧ skip < es.length then "?" else "*", specC s)])
+      | some p =>
+        if p.len = 0 then (s, line s "unbuilt" "-" [(if valid ∧ skip < es.length then "?" else "*", specC s)]) else
+        let rest := es.drop skip
+        let specR := if valid ∧ skip < es.length then
+            s!"del={(rest.getLast?.map (·.length)).getD 0} add=+ elems={fmtElems (rest.dropLast ++ [e2])}"
+          else "*"
+        let (dl, p1) : String × Path := match pathDel p with
+          | .ok (q, n) => (toString n, q)
+          | .err e => (toString e.code, p)
+          | _ => ("FAULT", p)
+        let (ad, p2) : String × Path := match pushElem p1 e2 with
+          | .ok q => ("+", q)
+          | _ => ("E", e2.foldl pushChar p1)
+        let walked := match elems p2 (p2.base.length + 2) with | .ok l => fmtElems l | x => resName x
+        (s, line s s!"del={dl} add={ad} elems={walked}" s!"off={p2.off} len={p2.len}" [(specR, specC s)])
+    | _, _, _, _ => (s, "bad-op")
   | ["g", "build", mode, sp, els] =>
     if mode ≠ "s" ∧ mode ≠ "b" then (s, "bad-op") else
     match parseChar sp, (els.splitOn ",").mapM parseText with
@@ -284,18 +373,29 @@ def step (s : St) (w : List String) : St × String :=
   | ["x", "set", pth, sp, val] =>
     if !s.xlive then (s, "bad-op") else
     match parseText pth, parseChar sp, parseText val with
-    | some pth, some sp, some val =>
+    | some pth, some sp, some val => xSet s pth sp val
+    | _, _, _ => (s, "bad-op")
+  | ["x", "setl", pre, n, suf, sp, val] =>
+    if !s.xlive then (s, "bad-op") else
+    match parseText pre, n.toNat?, parseText suf, parseChar sp, parseText val with
+    | some pre, some n, some suf, some sp, some val =>
+      if n < 65535 ∨ n > 70000 ∨ sp = 120 then (s, "bad-op") else
+      xSet s (pre ++ List.replicate n 120 ++ suf) sp val
+    | _, _, _, _, _ => (s, "bad-op")
+  | ["x", "has", pth, sp] =>
+    if !s.xlive then (s, "bad-op") else
+    match parseText pth, parseChar sp with
+    | some pth, some sp =>
       let key := PathMap.splitPath sp 0 pth
       match pathElems sp 0 pth with
       | .ok es =>
-        let sp' := { s with mx := PathMap.set s.mx key val }
-        match itemAssign s.xi es val with
-        | some l' =>
-          let s' := { sp' with xi := l' }
-          (s', xline s' "ok" "0" [("ok", xspecC s')])
-        | none => (s, xline s "refused" "false" [("ok", xspecC sp')])
-      | x => (s, xline s (resName x) "-" [("ok", "*")])
-    | _, _, _ => (s, "bad-op")
+        -- an element is there while a value is stored at or beneath it, and was never there when no accepted
+        -- assignment created it (`remove` empties an element but keeps its name: either answer afterwards)
+        let specHas := if s.mx.any (fun e => key.isPrefixOf e.1) then "present"
+          else if s.ex.contains key then "*" else "absent"
+        (s, xline s (if (itemFind s.xi es).isSome then "present" else "absent") "-" [(specHas, xspecC s)])
+      | x => (s, xline s (resName x) "-" [("*", "*")])
+    | _, _ => (s, "bad-op")
   | ["x", "del", pth, sp] =>
     if !s.xlive then (s, "bad-op") else
     match parseText pth, parseChar sp with
@@ -329,7 +429,7 @@ def step (s : St) (w : List String) : St × String :=
     | _, _ => (s, "bad-op")
   | ["x", "clear"] =>
     if !s.xlive then (s, "bad-op") else
-    let s' := { s with xi := [], mx := [] }
+    let s' := { s with xi := [], mx := [], ex := [] }
     (s', xline s' "ok" "0" [("ok", xspecC s')])
   | ["x", "padd", sp, els] =>
     if !s.xlive then (s, "bad-op") else
